@@ -1,5 +1,5 @@
 // Replay driver for StorageRead.tla (C21) on the real code: v1/services/storage Store.ReadFilter / ReadGroup over a
-// real two-shard tsdb.Store with a fake MetaClient (database = bucket id, retention policy autogen, one shard group
+// real two- or three-shard tsdb.Store with a fake MetaClient (database = bucket id, retention policy autogen, one shard group
 // per shard, the groups' time ranges [base, base+H*unit) and [base+H*unit, base+2*H*unit)).
 //
 // A case is one dataset (which series has which timestamps; a point lives in the shard owning its time) plus every
@@ -69,6 +69,7 @@ type rcase struct {
 	DS   map[string][]int64 `json:"ds"`
 	Pool map[string]series  `json:"pool"`
 	H    int64              `json:"h"`
+	N    int64              `json:"n"` // number of shards (2 or 3)
 	GKs  [][]string         `json:"gks"`
 	Reqs []request          `json:"reqs"`
 }
@@ -356,7 +357,10 @@ func adapter(raw json.RawMessage, env *rt.Env) rt.Result {
 	}
 	defer st.Close()
 	m := mc{db: bucket.String()}
-	for k := int64(1); k <= 2; k++ {
+	if c.N < 2 {
+		c.N = 2
+	}
+	for k := int64(1); k <= c.N; k++ {
 		if err := st.CreateShard(ctx, bucket.String(), meta.DefaultRetentionPolicyName, uint64(k), true); err != nil {
 			return rt.Infra("create shard: " + err.Error())
 		}
@@ -393,7 +397,7 @@ func adapter(raw json.RawMessage, env *rt.Env) rt.Result {
 		return models.NewPoint(n.meas[s.M], models.NewTags(tags), models.Fields{n.field[s.F]: fval(n.ftype[s.F], int64(100*id)+t)}, time.Unix(0, ct(t)+jit))
 	}
 	flushMode := rnd.Intn(4) // 0: cache only, 1: flush all, 2: flush first half of the points, 3: flush shard 1 only
-	for k := int64(1); k <= 2; k++ {
+	for k := int64(1); k <= c.N; k++ {
 		var batches [2][]models.Point
 		for _, id := range sids {
 			ts := append([]int64{}, c.DS[strconv.Itoa(id)]...)
@@ -487,7 +491,7 @@ func adapter(raw json.RawMessage, env *rt.Env) rt.Result {
 	}
 
 	res := rt.Result{OK: true}
-	ntq := 0
+	ntq, gapq := 0, 0
 	driftSeen := map[string]bool{}
 	addDrift := func(s string) {
 		if !driftSeen[s] {
@@ -508,17 +512,17 @@ func adapter(raw json.RawMessage, env *rt.Env) rt.Result {
 		qdesc := fmt.Sprintf("range=[%d,%d) pred=%s [%s] abstract range [%d,%d)", ct(q.Lo), ct(q.Hi), string(q.Pred), desc, q.Lo, q.Hi)
 		want := map[int][]cpoint{}
 		cross := false
+		gap := false
 		for _, fr := range q.Filter {
 			want[fr.S] = expPts(fr)
-			lo, hi := false, false
+			in := map[int64]bool{}
 			for _, p := range fr.Pts {
-				if p.T < c.H {
-					lo = true
-				} else {
-					hi = true
-				}
+				in[p.T/c.H] = true
 			}
-			cross = cross || (lo && hi)
+			cross = cross || len(in) >= 2
+			if c.N >= 3 && in[0] && in[2] && !in[1] {
+				gap = true // points on both sides of a shard in which this series has none
+			}
 		}
 		// ---- filter read
 		rs, err := store.ReadFilter(ctx, &datatypes.ReadFilterRequest{ReadSource: src, Range: &datatypes.TimestampRange{Start: ct(q.Lo), End: ct(q.Hi)}, Predicate: pred})
@@ -677,10 +681,13 @@ func adapter(raw json.RawMessage, env *rt.Env) rt.Result {
 		if cross {
 			ntq++
 		}
+		if gap {
+			gapq++
+		}
 	}
 	res.Nontrivial = ntq > 0
 	res.Sig = fmt.Sprint(c.DS)
-	res.Extra = map[string]interface{}{"nontrivial_requests": ntq, "requests": len(c.Reqs)}
+	res.Extra = map[string]interface{}{"nontrivial_requests": ntq, "requests": len(c.Reqs), "gap_requests": gapq}
 	_ = reads.ResultSet(nil)
 	return res
 }
